@@ -518,3 +518,72 @@ Example C12_tables_instances :
   ta_obj_err_iin2 (ta_obj_err (OEUnknownGV 9 9)) = Some 2 /\
   length tb_non_read_dispatch = 17%nat /\ length tb_broadcast_dispatch = 8%nat /\ length tb_obj_err_iin2 = 10%nat.
 Proof. vm_compute. repeat split. Qed.
+
+(* ---------- 5 (continued). header errors in every control state, and composed with the parser ----------------- *)
+From Dnp3V Require Outstation.SessionC03Proofs.
+From Dnp3V Require Import Outstation.FullCorollaries.
+
+(* C12_header_error_reported without the restriction to idle: in the solicited confirm wait the series is aborted
+   and the fragment processed as a new request, in the unsolicited confirm wait it is answered inside the wait.
+   reports_error from q out = out contains exactly one solicited fragment (everything else transmitted has function
+   code 130), sent to `from`, with sequence number q mod 16 and IIN2.0 set (err_resp) *)
+Theorem C12_header_error_reported_all : forall cfg from bytes d q,
+  to_treq cfg from d = TqError (Some q) ->
+  forall AP s answers,
+  Reach AP cfg s ->
+  exists pre b post,
+    snd (ostep cfg s (ERx from None bytes d) answers) = pre ++ OTx from b :: post /\
+    Forall not_sol pre /\ Forall not_sol post /\
+    nth 1 b 0 = 129 /\ ctl_seq (nth 0 b 0) = q mod 16 /\ N.land (nth 3 b 0) 1 = 1.
+Proof. exact header_error_reported_all. Qed.
+Print Assumptions C12_header_error_reported_all.
+
+(* Composed (Outstation/Full.v: the digest IS frag_digest of the octets, the database answers are computed;
+   fstep F st (FRx from None bytes) is the reception, FReach the reachable states, ro_out (frx_out ..) the session's
+   observations of the reception): octets whose digest is DUnknown or carries RvBad, unicast, from an accepted
+   master, are answered in every reachable state - idle, solicited confirm wait, unsolicited confirm wait - by
+   exactly one solicited response, to the sender, with the sequence number of octet 0 and IIN2 bit 0 set *)
+Theorem C12_composed_header_error_reported : forall F st from bytes,
+  SessionC03Proofs.FReach F st -> accepted_master (f_o F) from ->
+  ((exists seq code, frag_digest bytes = DUnknown seq code) \/
+   (exists ctl fn obj, frag_digest bytes = DOk ctl fn RvBad obj)) ->
+  exists pre b post,
+    ro_out (frx_out F st from None bytes) = pre ++ OTx from b :: post /\
+    Forall not_sol pre /\ Forall not_sol post /\
+    nth 1 b 0 = 129 /\ (nth 0 b 0) mod 16 = (nth 0 bytes 0) mod 16 /\ N.testbit (nth 3 b 0) 0 = true.
+Proof. exact frx_header_error_reported. Qed.
+Print Assumptions C12_composed_header_error_reported.
+
+(* which octets these are: octet 1 is not a function code ... *)
+Theorem C12_composed_unknown_function_digest : forall c f r,
+  afunction_known f = false -> frag_digest (c :: f :: r) = DUnknown (c mod 16) f.
+Proof. exact frag_digest_unknown_function. Qed.
+Print Assumptions C12_composed_unknown_function_digest.
+
+(* ... or it is a request function code and octet 0 lacks FIR or FIN, or has UNS on anything but a CONFIRM *)
+Theorem C12_composed_bad_flags_digest : forall c f r,
+  afunction_known f = true -> afunction_has_iin f = false ->
+  (N.testbit c 7 = false \/ N.testbit c 6 = false \/ (N.testbit c 4 = true /\ f <> 0)) ->
+  exists obj, frag_digest (c :: f :: r) = DOk c f RvBad obj.
+Proof. exact frag_digest_bad_flags. Qed.
+Print Assumptions C12_composed_bad_flags_digest.
+
+(* non-vacuity (vm_compute in FullCorollaries): function code 70 and a SELECT without FIR, received idle, while a
+   response with a class 1 event awaits its confirm, and while the empty unsolicited response of start-up does *)
+Example C12_composed_instance :
+  SessionC03Proofs.FReach cx_F cx_st0 /\ SessionC03Proofs.FReach cx_F cz_solwait /\ SessionC03Proofs.FReach cy_F cy_waiting /\
+  frag_digest [194; 70] = DUnknown 2 70 /\ frag_digest [73; 3] = DOk 73 3 RvBad (ObjOk [] []) /\
+  s_control (fs_s cx_st0) = CIdle /\
+  s_control (fs_s cz_solwait) = CSolWait {| se_ecsn := 1; se_fin := true |} 5002 RStep2 /\
+  (exists resp, s_control (fs_s cy_waiting) = CUnsolWait resp true (Some 0%nat) 5000) /\
+  ro_out (frx_out cx_F cx_st0 1 None [194; 70]) = [ODb DbEvinfo; OTx 1 [194; 129; 128; 1]] /\
+  ro_out (frx_out cx_F cz_solwait 1 None [194; 70]) =
+    [OInfo ISolNewRequest; ODb DbReset; ODb DbEvinfo; OTx 1 [194; 129; 130; 1]] /\
+  ro_out (frx_out cy_F cy_waiting 1 None [194; 70]) = [ODb DbEvinfo; OTx 1 [194; 129; 128; 1]] /\
+  ro_out (frx_out cx_F cx_st0 1 None [73; 3]) = [ODb DbEvinfo; OTx 1 [201; 129; 128; 1]] /\
+  ro_out (frx_out cx_F cz_solwait 1 None [73; 3]) =
+    [OInfo ISolNewRequest; ODb DbReset; ODb DbEvinfo; OTx 1 [201; 129; 130; 1]] /\
+  ro_out (frx_out cy_F cy_waiting 1 None [73; 3]) = [ODb DbEvinfo; OTx 1 [201; 129; 128; 1]] /\
+  SessionC03Proofs.has_replay_error (snd (fstep cx_F cz_solwait (FRx 1 None [194; 70]))) = false /\
+  SessionC03Proofs.has_replay_error (snd (fstep cy_F cy_waiting (FRx 1 None [73; 3]))) = false.
+Proof. exact ex_frx_header_error. Qed.
